@@ -862,6 +862,13 @@ impl<'a> Run<'a> {
                 }
                 Ok(())
             },
+            Op::GrantBurst { to, sec, lvl } => {
+                ctx.label("ttl:burst of 20 short grants");
+                for _ in 0..20 {
+                    self.apply(ctx, &Op::Grant { req: P::Root, to: to.clone(), sec: *sec, lvl: *lvl, ttl: Ttl::Short, view: false })?;
+                }
+                Ok(())
+            },
             Op::SealedSleep => {
                 if self.sleeps >= MAX_SLEEPS || !self.m.has_unexpired_short() {
                     ctx.label("skip:sleep");
